@@ -586,7 +586,7 @@ func (c *fnCtx) structTypeOf(e ast.Expr) *fnType {
 	if !ok {
 		return nil
 	}
-	ts := c.g.structs[id.Name]
+	ts := c.structDecl(id)
 	if ts == nil || (id.Obj != nil && id.Obj.Kind != ast.Typ) {
 		return nil
 	}
@@ -594,16 +594,26 @@ func (c *fnCtx) structTypeOf(e ast.Expr) *fnType {
 	if len(tps) != len(args) {
 		c.lostAt(e, "type %s (type arguments)", src(e))
 	}
-	t := &fnType{k: "struct", name: id.Name, decl: ts}
+	t := &fnType{k: "struct", name: c.g.coqName(ts), decl: ts}
 	for _, a := range args {
 		t.params = append(t.params, c.goType(a))
 	}
+	// a struct that refers to itself through a pointer field (type seq struct{...; prev *seq})
+	key := t.coq()
+	if busy := c.structBusy[key]; busy != nil {
+		return busy
+	}
+	if c.structBusy == nil {
+		c.structBusy = map[string]*fnType{}
+	}
+	c.structBusy[key] = t
+	defer delete(c.structBusy, key)
 	names, types := structFields(ts.Type.(*ast.StructType))
 	c.withTypeArgs(tps, args, e, func() {
 		for _, n := range names {
-			ft := c.goType(types[n])
+			ft := c.fieldType(types[n])
 			switch ft.k {
-			case "int", "byte", "bool", "string", "elem", "struct":
+			case "int", "byte", "bool", "string", "elem", "struct", "u64", "ptr", "view":
 			default:
 				c.lostAt(e, "struct type %s with a field of type %s (aliasing)", id.Name, src(types[n]))
 			}
@@ -615,9 +625,19 @@ func (c *fnCtx) structTypeOf(e ast.Expr) *fnType {
 	return t
 }
 
+// fieldType: the representation of a struct field: a slice field holds a window of a slice
+// parameter (a view; which parameter is checked at the literals that set it)
+func (c *fnCtx) fieldType(e ast.Expr) *fnType {
+	ft := c.goType(e)
+	if ft.k == "slice" && ft.elem.k != "slice" && ft.elem.k != "map" {
+		return tyView
+	}
+	return ft
+}
+
 // record emits the Coq Record of a struct type (once per file).
 func (g *fnGen) record(c *fnCtx, ts *ast.TypeSpec) {
-	name := ts.Name.Name
+	name := g.coqName(ts)
 	if g.usedStructs[name] {
 		return
 	}
@@ -630,11 +650,16 @@ func (g *fnGen) record(c *fnCtx, ts *ast.TypeSpec) {
 	c.typeParams(ts.TypeParams)
 	names, types := structFields(ts.Type.(*ast.StructType))
 	var fs []string
+	recursive := false
 	for _, n := range names {
-		fs = append(fs, name+"_"+n+" : "+c.goType(types[n]).coq())
+		ft := c.fieldType(types[n])
+		if ft.k == "ptr" && ft.elem.decl == ts {
+			recursive = true
+		}
+		fs = append(fs, name+"_"+n+" : "+ft.coq())
 	}
 	var b strings.Builder
-	hdr := "type " + name
+	hdr := "type " + ts.Name.Name
 	if ts.TypeParams != nil {
 		var ps []string
 		for _, f := range ts.TypeParams.List {
@@ -648,7 +673,11 @@ func (g *fnGen) record(c *fnCtx, ts *ast.TypeSpec) {
 		params = " (" + strings.Join(tps, " ") + " : Type)"
 		impl = " {" + strings.Join(tps, " ") + "}"
 	}
-	b.WriteString("Record " + name + params + " : Type := mk_" + name + " { " + strings.Join(fs, "; ") + " }.\n")
+	kw := "Record "
+	if recursive {
+		kw = "Inductive " // a struct that points to itself (type seq struct{...; prev *seq})
+	}
+	b.WriteString(kw + name + params + " : Type := mk_" + name + " { " + strings.Join(fs, "; ") + " }.\n")
 	if impl != "" {
 		b.WriteString("Arguments mk_" + name + impl + ".\n")
 		for _, n := range names {
@@ -681,6 +710,12 @@ func (c *fnCtx) structSelect(v *ast.SelectorExpr, pre *[]fnBind) (string, *fnTyp
 		return "", nil // a package or an unknown name
 	}
 	x, t := c.expr(v.X, pre)
+	if t.k == "ptr" {
+		// p.f through a pointer to an immutable struct: nil panics
+		tm := c.tmp()
+		bindRaw(pre, tm, "go_deref "+paren(x))
+		x, t = tm, t.elem
+	}
 	if t.k != "struct" {
 		return "", nil
 	}
@@ -749,6 +784,16 @@ func (c *fnCtx) structLit(v *ast.CompositeLit, t *fnType, pre *[]fnBind) string 
 		}
 	}
 	for _, i := range order {
+		if t.res[i].k == "view" {
+			// a slice field: a window of a slice parameter (always the same one for this field)
+			if id, ok := vals[i].(*ast.Ident); ok && id.Name == "nil" && id.Obj == nil {
+				strs[i] = "(mkView 0 0 0)"
+				continue
+			}
+			c.viewField(t, t.fnames[i], vals[i])
+			strs[i] = c.viewOf(vals[i], pre)
+			continue
+		}
 		x, xt := c.expr(vals[i], pre)
 		c.noAlias(vals[i], xt)
 		strs[i] = x
